@@ -189,9 +189,14 @@ impl SemanticState {
             let size = size.with_context(|| {
                 format!("failed to find `size` attribute for extern type `{extern_path}` in module `{path}`")
             })?;
-            let alignment = alignment.with_context(|| {
+            let alignment: usize = alignment.with_context(|| {
                 format!("failed to find `align` attribute for extern type `{extern_path}` in module `{path}`")
             })?;
+            if !alignment.is_power_of_two() {
+                anyhow::bail!(
+                    "alignment {alignment} of extern type `{extern_path}` in module `{path}` is not a power of two"
+                );
+            }
 
             let extern_path = path.join(extern_path.as_str().into());
             self.ensure_not_defined(&extern_path)?;
